@@ -26,6 +26,8 @@ def ops_catalogue():
             ("list", lambda ll: list(ll), lambda s: list(s)), ("listify", lambda ll: ll.listify(), lambda s: list(s)),
             ("1 in", lambda ll: bool(1 in ll), lambda s: 1 in s), ("7 in", lambda ll: bool(7 in ll), lambda s: 7 in s),
             ("== [0,1]", lambda ll: ll == [0, 1], lambda s: s == [0, 1]), ("count(1)", lambda ll: ll.count(1), lambda s: s.count(1)),
+            ("== fresh lazy", lambda ll: ll == mk(list(ll._verif_model)), lambda s: True),
+            ("fresh lazy ==", lambda ll: mk(list(ll._verif_model)) == ll, lambda s: True),
             ("has_ind(1)", lambda ll: ll.has_ind(1), lambda s: 0 <= 1 < len(s)),
             ("reversed", lambda ll: list(ll.reversed()), lambda s: s[::-1]),
             ("copy", lambda ll: list(H.deep_copy(ll)), lambda s: list(s)),
@@ -42,6 +44,7 @@ def run_history(src, hist, ops, negs):
 
     ll = mk(src)
     model = list(src)
+    ll._verif_model = model  # for the two equality observations against a fresh (unobserved) lazy list over the same items
     consumed_by_next = 0
     trace = []
     copies = []
